@@ -31,6 +31,27 @@ def corpus():
                 if meta.get("detected_by"):
                     items.append({"id": "seeded/" + d, "prop": meta["property"], "patch": pp, "expect": "refuted",
                                   "ob": meta.get("detected_by")})
+    # behaviour-preserving refactorings written by independent reviewers: every check whose property is anchored in a touched file must stay green
+    bd = os.path.join(VERIF, "benign")
+    if os.path.isdir(bd):
+        anchors = {}
+        try:
+            for line in open(os.path.join(VERIF, "properties.jsonl")):
+                pr = json.loads(line)
+                anchors[pr["id"]] = set(pr.get("anchors", {}).get("files", []))
+        except Exception:
+            anchors = {}
+        extra = {"litedram/common.py": {"C01", "C02", "C03", "C05", "C06", "C17"}, "litedram/core/controller.py": {"C01", "C04", "C06", "C08"},
+                 "litedram/frontend/dma.py": {"C13", "C14"}, "litedram/core/bankmachine.py": {"C06"}, "litedram/core/multiplexer.py": {"C04"},
+                 "litedram/core/refresher.py": {"C03"}, "litedram/modules.py": {"C04"}}
+        for f in sorted(os.listdir(bd)):
+            if not f.endswith(".diff"):
+                continue
+            pp = os.path.join(bd, f)
+            touched = {l[6:].strip() for l in open(pp) if l.startswith("+++ b/")}
+            for prop, files in sorted(anchors.items()):
+                if touched & files or any(prop in extra.get(t, ()) for t in touched):
+                    items.append({"id": "benign/%s" % f[:-5], "prop": prop, "patch": pp, "expect": "holds"})
     return items
 
 
